@@ -239,8 +239,17 @@ class LibMixin:
                     self.assume(st, v.term != z3.BitVecVal(0, v.term.size()) if z3.is_bv(v.term) else TRUE)
                 out.append(v)
             return TupleV(out)
+        if callee.startswith("sync.(*WaitGroup)."):
+            # counted operation, also under a name that carries the field holding the WaitGroup (several groups per object)
+            fx = e["Fun"].get("X") if e["Fun"].get("k") == "SelectorExpr" else None
+            r = self.unknown_call(callee, e, st)
+            if fx is not None and fx.get("k") == "SelectorExpr":
+                self.trace_event(st, "%s:%s" % (self.prog.short(callee), fx["Sel"]["Name"]))
+            return r
         if callee.startswith("sync.(*Mutex).") or callee.startswith("sync.(*RWMutex)."):
             self.models_used.add("sync.Mutex/RWMutex (mutual exclusion is not modelled: every shared read is arbitrary anyway)")
+            if callee.endswith(".TryLock") or callee.endswith(".TryRLock"):
+                return self.fresh("trylock", z3.BoolSort())   # may or may not succeed
             return TupleV([])
         if callee.startswith("sync/atomic."):
             m = callee.rsplit(".", 1)[1]
